@@ -44,7 +44,7 @@ NAME_POOLS = {
 class Cfg:
     def __init__(self, naming="distinct", method_form=0.3, members=None, called_lambdas=True, odd_selectors=False,
                  containers=True, ifexp=True, keywords_in_called=True, first=True, lists=True, dict_attr=True,
-                 comprehension=False, count_fn=True, first_on_seq=True):
+                 comprehension=False, count_fn=True, first_on_seq=True, genexp=False):
         self.naming = naming
         self.method_form = method_form
         self.members = members or MEMBERS
@@ -59,6 +59,7 @@ class Cfg:
         self.comprehension = comprehension
         self.count_fn = count_fn
         self.first_on_seq = first_on_seq
+        self.genexp = genexp
 
 
 class Ctx:
@@ -348,11 +349,18 @@ def _seq(cx: Ctx, env, elem, depth):
             src, st_ = any_seq(cx, env, depth - 1)
             v = cx.fresh(env)
             e2 = bind(env, v, st_)
-            ifs = "".join(f" if {gen(cx, e2, B, depth - 1)}" for _ in range(cx.int_(0, 2)))
-            return f"[{gen(cx, e2, elem, depth - 1)} for {v} in {src}{ifs}]"
+            return comprehension(cx, e2, v, src, gen(cx, e2, elem, depth - 1), depth)
         return p or _seq(cx, env, elem, depth - 1)
 
     return _wrappers(cx, env, want, depth, base) if depth > 0 and cx.chance(2) else base()
+
+
+def comprehension(cx: Ctx, e2, v, src, elt, depth):
+    """render a single-for comprehension (list or generator expression) with 0-3 if clauses"""
+    ifs = "".join(f" if {gen(cx, e2, B, max(depth - 1, 0))}" for _ in range(cx.int_(0, 3) if cx.chance(6) else 0))
+    if cx.cfg.genexp and cx.chance(3):
+        return f"({elt} for {v} in {src}{ifs})"
+    return f"[{elt} for {v} in {src}{ifs}]"
 
 
 def _source(cx: Ctx, env):
@@ -369,6 +377,11 @@ def any_seq(cx: Ctx, env, depth):
     v = cx.fresh(env)
     e2 = bind(env, v, st_)
     c = cx.int_(0, 9)
+    if cx.cfg.comprehension and cx.chance(5):
+        t = any_type(cx, e2, 2)
+        if t[0] == "S":
+            t = I
+        return comprehension(cx, e2, v, src, gen(cx, e2, t, depth - 1), depth), t
     if c <= 5:
         t = any_type(cx, e2, 2)
         if t[0] == "S":
